@@ -132,15 +132,18 @@ pub struct OuterCircuit {
     inner_vk: (EvaluationDomain<F>, ConstraintSystem<F>, Value<F>),
     inner_committed_instance: Value<C>,
     inner_instances: Vec<Value<F>>,
+    /// further plain instance columns of the inner circuit (after the first)
+    inner_extra: Vec<Vec<Value<F>>>,
     inner_proof: Value<Vec<u8>>,
 }
 
 impl OuterCircuit {
-    pub fn new(vk: &Vk, pi: &[F], proof: &[u8]) -> Self {
+    pub fn new(vk: &Vk, pi: &[F], extra: &[Vec<F>], proof: &[u8]) -> Self {
         OuterCircuit {
             inner_vk: (vk.get_domain().clone(), vk.cs().clone(), Value::known(vk.transcript_repr())),
             inner_committed_instance: Value::known(C::identity()),
             inner_instances: pi.iter().map(|x| Value::known(*x)).collect(),
+            inner_extra: extra.iter().map(|c| c.iter().map(|x| Value::known(*x)).collect()).collect(),
             inner_proof: Value::known(proof.to_vec()),
         }
     }
@@ -207,12 +210,19 @@ impl Circuit<F> for OuterCircuit {
         let assigned_committed_instance =
             curve_chip.assign(&mut layouter, self.inner_committed_instance)?;
         let assigned_inner_pi = native_gadget.assign_many(&mut layouter, &self.inner_instances)?;
+        let assigned_extra = self
+            .inner_extra
+            .iter()
+            .map(|c| native_gadget.assign_many(&mut layouter, c))
+            .collect::<Result<Vec<Vec<_>>, Error>>()?;
+        let mut all_pi: Vec<&[_]> = vec![&assigned_inner_pi];
+        all_pi.extend(assigned_extra.iter().map(|c| c.as_slice()));
 
         let mut inner_proof_acc = verifier_chip.prepare(
             &mut layouter,
             &assigned_inner_vk,
             &[assigned_committed_instance],
-            &[&assigned_inner_pi],
+            &all_pi,
             self.inner_proof.clone(),
         )?;
         inner_proof_acc.collapse(&mut layouter, &curve_chip, &native_gadget)?;
@@ -231,16 +241,22 @@ pub struct InnerCase {
     pub k: u32,
     pub vk: Vk,
     pub pi: Vec<F>,
+    /// further plain instance columns (after `pi`); empty for all but the multi-column shape
+    pub extra: Vec<Vec<F>>,
     pub proof: Vec<u8>,
     /// element boundaries of the inner proof as read by the off-circuit verifier
     pub layout: Vec<Element>,
     pub lookups: usize,
 }
 
-fn layout_of(vk: &Vk, pi: &[F], proof: &[u8]) -> Result<Vec<Element>, String> {
+fn cols<'a>(pi: &'a [F], extra: &'a [Vec<F>]) -> Vec<&'a [F]> {
+    std::iter::once(pi).chain(extra.iter().map(|c| c.as_slice())).collect()
+}
+
+fn layout_of(vk: &Vk, pi: &[F], extra: &[Vec<F>], proof: &[u8]) -> Result<Vec<Element>, String> {
     let _ = take_elements();
     let mut t = LoggedTranscript::<PS>::init_from_bytes(proof);
-    let r = prepare::<F, CS, LoggedTranscript<PS>>(vk, &[&[C::identity()]], &[&[pi]], &mut t);
+    let r = prepare::<F, CS, LoggedTranscript<PS>>(vk, &[&[C::identity()]], &[&cols(pi, extra)], &mut t);
     let els = take_elements();
     r.map_err(|e| format!("{e:?}"))?;
     t.assert_empty().map_err(|e| format!("{e:?}"))?;
@@ -269,13 +285,14 @@ pub fn poseidon_case(k: u32, seed: u64) -> Result<InnerCase, String> {
     )
     .map_err(|e| format!("create_proof: {e:?}"))?;
     let proof = t.finalize();
-    let layout = layout_of(&vk, &pi, &proof)?;
+    let layout = layout_of(&vk, &pi, &[], &proof)?;
     Ok(InnerCase {
         name: format!("poseidon-scratch/k{k}"),
         k,
         lookups: vk.cs().lookups().len(),
         vk,
         pi,
+        extra: vec![],
         proof,
         layout,
     })
@@ -308,13 +325,14 @@ pub fn arith_case(k_wish: u32, seed: u64) -> Result<InnerCase, String> {
     )
     .map_err(|e| format!("create_proof: {e:?}"))?;
     let proof = t.finalize();
-    let layout = layout_of(&vk, &pi, &proof)?;
+    let layout = layout_of(&vk, &pi, &[], &proof)?;
     Ok(InnerCase {
         name: format!("arith-stdlib/k{k}"),
         k,
         lookups: vk.cs().lookups().len(),
         vk,
         pi,
+        extra: vec![],
         proof,
         layout,
     })
@@ -392,6 +410,98 @@ impl<const V: u8> Circuit<F> for RotInner<V> {
     }
 }
 
+// ---------------------------------------------------------------------------------------------
+// Inner circuit 4: two plain instance columns holding different numbers of public inputs
+// ---------------------------------------------------------------------------------------------
+
+/// Columns [committed instance, instance A, instance B, advice]; gate
+/// `q * (a - A[cur] - 3·B[cur] - 5·B[next])`.
+#[derive(Clone, Debug, Default)]
+pub struct TwoColInner {
+    a: Value<Vec<F>>,
+    b: Value<Vec<F>>,
+}
+
+impl Circuit<F> for TwoColInner {
+    type Config = (midnight_proofs::plonk::Column<midnight_proofs::plonk::Advice>, midnight_proofs::plonk::Selector);
+    type FloorPlanner = SimpleFloorPlanner;
+    type Params = ();
+
+    fn without_witnesses(&self) -> Self {
+        Self::default()
+    }
+
+    fn configure(meta: &mut ConstraintSystem<F>) -> Self::Config {
+        use midnight_proofs::{plonk::Expression, poly::Rotation};
+        let _committed = meta.instance_column();
+        let ia = meta.instance_column();
+        let ib = meta.instance_column();
+        let adv = meta.advice_column();
+        let q = meta.selector();
+        meta.create_gate("two instance columns", |m| {
+            let e = m.query_advice(adv, Rotation::cur())
+                - m.query_instance(ia, Rotation::cur())
+                - m.query_instance(ib, Rotation::cur()) * Expression::Constant(F::from(3))
+                - m.query_instance(ib, Rotation::next()) * Expression::Constant(F::from(5));
+            midnight_proofs::plonk::Constraints::with_selector(q, vec![e])
+        });
+        (adv, q)
+    }
+
+    fn synthesize(&self, config: Self::Config, mut layouter: impl Layouter<F>) -> Result<(), Error> {
+        let (adv, q) = config;
+        layouter.assign_region(
+            || "two-col",
+            |mut region| {
+                for row in 0..ROT_ROWS {
+                    q.enable(&mut region, row)?;
+                    let v = self.a.as_ref().zip(self.b.as_ref()).map(|(a, b)| {
+                        let at = |c: &Vec<F>, i: usize| c.get(i).copied().unwrap_or(F::ZERO);
+                        at(a, row) + at(b, row) * F::from(3) + at(b, row + 1) * F::from(5)
+                    });
+                    region.assign_advice(|| "a", adv, row, || v)?;
+                }
+                Ok(())
+            },
+        )
+    }
+}
+
+pub fn twocol_case(k: u32, seed: u64) -> Result<InnerCase, String> {
+    let mut rng = ChaCha8Rng::seed_from_u64(seed);
+    let params = params_for(k);
+    let vk = keygen_vk_with_k::<F, CS, _>(params, &TwoColInner::default(), k).map_err(|e| format!("keygen_vk k={k}: {e:?}"))?;
+    let pk = keygen_pk(vk.clone(), &TwoColInner::default()).map_err(|e| format!("{e:?}"))?;
+    let na = rng.gen_range(1..=3usize);
+    let nb = na + rng.gen_range(1..=3usize);
+    let a: Vec<F> = (0..na).map(|_| F::random(&mut rng)).collect();
+    let b: Vec<F> = (0..nb).map(|_| F::random(&mut rng)).collect();
+    let mut t = CircuitTranscript::<PS>::init();
+    create_proof::<F, CS, CircuitTranscript<PS>, TwoColInner>(
+        params,
+        &pk,
+        &[TwoColInner { a: Value::known(a.clone()), b: Value::known(b.clone()) }],
+        1,
+        &[&[&[], &a, &b]],
+        &mut rng,
+        &mut t,
+    )
+    .map_err(|e| format!("create_proof: {e:?}"))?;
+    let proof = t.finalize();
+    let extra = vec![b];
+    let layout = layout_of(&vk, &a, &extra, &proof)?;
+    Ok(InnerCase {
+        name: format!("cols2-two-instance-columns/k{k}"),
+        k,
+        lookups: vk.cs().lookups().len(),
+        vk,
+        pi: a,
+        extra,
+        proof,
+        layout,
+    })
+}
+
 /// rows on which the gate is enabled: `ROT_FIRST..ROT_ROWS` would avoid negative wrap-around, but
 /// row 0 with a negative rotation reads the last row of the column (blinding area of an instance
 /// column is zero), so every row from 0 is sound to enable.
@@ -416,13 +526,14 @@ fn rot_case_v<const V: u8>(k: u32, seed: u64) -> Result<InnerCase, String> {
     )
     .map_err(|e| format!("create_proof: {e:?}"))?;
     let proof = t.finalize();
-    let layout = layout_of(&vk, &pi, &proof)?;
+    let layout = layout_of(&vk, &pi, &[], &proof)?;
     Ok(InnerCase {
         name: format!("rot{V}-instance-rotations/k{k}"),
         k,
         lookups: vk.cs().lookups().len(),
         vk,
         pi,
+        extra: vec![],
         proof,
         layout,
     })
@@ -449,9 +560,9 @@ pub struct OffCircuit {
 }
 
 /// Off-circuit `prepare` + `Accumulator::from_dual_msm` + `collapse` + encoding.
-pub fn offcircuit(vk: &Vk, k: u32, pi: &[F], proof: &[u8]) -> Result<OffCircuit, String> {
+pub fn offcircuit(vk: &Vk, k: u32, pi: &[F], extra: &[Vec<F>], proof: &[u8]) -> Result<OffCircuit, String> {
     let mut t = CircuitTranscript::<PS>::init_from_bytes(proof);
-    let dual = prepare::<F, CS, CircuitTranscript<PS>>(vk, &[&[C::identity()]], &[&[pi]], &mut t)
+    let dual = prepare::<F, CS, CircuitTranscript<PS>>(vk, &[&[C::identity()]], &[&cols(pi, extra)], &mut t)
         .map_err(|e| format!("{e:?}"))?;
     let fixed_bases = verifier::fixed_bases::<S>(VK_NAME, vk);
     let mut acc = Accumulator::<S>::from_dual_msm(dual, VK_NAME, &fixed_bases);
@@ -507,7 +618,7 @@ pub fn cross_vk_accumulation(seed: u64, rng: &mut ChaCha8Rng, rounds: usize, rep
         }
         for (pi, proof, what) in variants {
             let mut t = CircuitTranscript::<PS>::init_from_bytes(&proof);
-            let Ok(dual) = prepare::<F, CS, CircuitTranscript<PS>>(&c.vk, &[&[C::identity()]], &[&[&pi]], &mut t) else { continue };
+            let Ok(dual) = prepare::<F, CS, CircuitTranscript<PS>>(&c.vk, &[&[C::identity()]], &[&cols(&pi, &c.extra)], &mut t) else { continue };
             let acc = Accumulator::<S>::from_dual_msm(dual, &name, &fb);
             let tau = params_for(c.k).s_g2().into();
             let valid = acc.check(&tau, &fb);
@@ -801,6 +912,7 @@ fn witness_json(case: &InnerCase, spec: &RunSpec, pi: &[F], proof: &[u8], claime
         "inner_k": case.k,
         "witness_kind": format!("{:?}", spec.kind),
         "inner_pi": pi.iter().map(hexf).collect::<Vec<_>>(),
+        "inner_extra_columns": case.extra.iter().map(|c| c.iter().map(hexf).collect::<Vec<_>>()).collect::<Vec<_>>(),
         "inner_proof": hex::encode(proof),
         "claimed_instance": claimed.iter().map(hexf).collect::<Vec<_>>(),
         "detail": extra,
@@ -814,7 +926,7 @@ pub fn run_one(case: &InnerCase, spec: &RunSpec, rep: &mut Report) -> RunStats {
         rep.count("gadget.skipped-unchanged-bytes");
         return st;
     };
-    let honest = match offcircuit(&case.vk, case.k, &case.pi, &case.proof) {
+    let honest = match offcircuit(&case.vk, case.k, &case.pi, &case.extra, &case.proof) {
         Ok(o) if o.check => o,
         Ok(_) => {
             rep.inconclusive(&format!("{}: honest inner proof fails Accumulator::check off-circuit", case.name));
@@ -825,7 +937,7 @@ pub fn run_one(case: &InnerCase, spec: &RunSpec, rep: &mut Report) -> RunStats {
             return st;
         }
     };
-    let own = match catch_any(|| offcircuit(&case.vk, case.k, &pi, &proof)) {
+    let own = match catch_any(|| offcircuit(&case.vk, case.k, &pi, &case.extra, &proof)) {
         Ok(Ok(o)) => o,
         Ok(Err(e)) => {
             // the corruption does not parse off-circuit: nothing to compare
@@ -847,7 +959,7 @@ pub fn run_one(case: &InnerCase, spec: &RunSpec, rep: &mut Report) -> RunStats {
         rep.count("gadget.corruption-without-effect-on-accumulator");
         return st;
     }
-    let circuit = OuterCircuit::new(&case.vk, &pi, &proof);
+    let circuit = OuterCircuit::new(&case.vk, &pi, &case.extra, &proof);
     let inst_cols = vec![vec![], own.instance.clone()];
 
     // ---- synthesise twice (reference collector, MockProver) --------------------------------
@@ -1117,6 +1229,13 @@ pub fn replay(w: &Json) -> Result<bool, String> {
         poseidon_case(k, 0)?
     } else if let Some(v) = name.strip_prefix("rot").and_then(|r| r[..1].parse::<u8>().ok()) {
         rot_case(v, k, 0)?
+    } else if name.starts_with("cols2") {
+        let mut c = twocol_case(k, 0)?;
+        c.extra = w["inner_extra_columns"]
+            .as_array()
+            .map(|cs| cs.iter().map(|c| c.as_array().map(|v| v.iter().filter_map(|s| s.as_str().and_then(unhexf)).collect()).unwrap_or_default()).collect())
+            .unwrap_or_default();
+        c
     } else {
         arith_case(k, 0)?
     };
@@ -1124,7 +1243,7 @@ pub fn replay(w: &Json) -> Result<bool, String> {
     let proof = hex::decode(w["inner_proof"].as_str().ok_or("inner_proof")?).map_err(|e| e.to_string())?;
     let claimed: Vec<F> =
         w["claimed_instance"].as_array().ok_or("claimed_instance")?.iter().filter_map(|s| s.as_str().and_then(unhexf)).collect();
-    match offcircuit(&case.vk, k, &pi, &proof) {
+    match offcircuit(&case.vk, k, &pi, &case.extra, &proof) {
         Ok(o) => println!(
             "off-circuit: accumulator check = {}, equals claimed instance = {}",
             o.check,
@@ -1132,7 +1251,7 @@ pub fn replay(w: &Json) -> Result<bool, String> {
         ),
         Err(e) => println!("off-circuit prepare: {e}"),
     }
-    let circuit = OuterCircuit::new(&case.vk, &pi, &proof);
+    let circuit = OuterCircuit::new(&case.vk, &pi, &case.extra, &proof);
     let cols = vec![vec![], claimed.clone()];
     let tables = collect(OUTER_K, &circuit, &cols, CollectOpts::default())?;
     let bound = bound_instance(&tables, 1, &[]);
